@@ -189,8 +189,14 @@ def enum_confirmed(tier, shard, nshards):
         except Exception:
             yield {"n": n, "wt": wt, "sens": sens, "path": [], "vote": [0] * n}
             continue
+        def full_state(el):
+            # every attribute of the election object, so that state a changed implementation keeps elsewhere
+            # (caches, extra counters) also distinguishes BFS nodes
+            return repr(sorted((k_, repr(v)) for k_, v in vars(el).items()))
+
         start = (e0, tuple([0] * n), [])
-        seen = {(None, tuple([0] * n))}
+        seen = {(full_state(e0), tuple([0] * n))}
+        cap = 20000  # a changed implementation with unbounded hidden state must not make the search endless
         frontier = collections_deque([start])
         vectors = [list(v) for v in itertools.product([0, 1, 2], repeat=n)]
         while frontier:
@@ -202,11 +208,11 @@ def enum_confirmed(tier, shard, nshards):
                     e2 = copy.deepcopy(el)
                     got = e2(dets(vec))
                     want, rem2 = model_step(list(rem), vec, sens, wt)
-                    key = (tuple(e2.wait_period_counters), tuple(rem2))
+                    key = (full_state(e2), tuple(rem2))
                     ok = got == want
                 except Exception:
                     ok = False
-                if ok and key not in seen:
+                if ok and key not in seen and len(seen) < cap:
                     seen.add(key)
                     labels.append("new-state")
                     frontier.append((e2, tuple(rem2), path + [vec]))
@@ -229,7 +235,7 @@ def check_confirmed_random(case, ctx):
 def strat_confirmed_random(tier):
     @st.composite
     def s(draw):
-        n = draw(st.integers(5, 7))
+        n = draw(st.sampled_from([1, 2, 3, 5, 6, 7]))
         wt = draw(st.integers(0, 5))
         sens = draw(st.integers(1, n + 1))
         vote = st.lists(st.sampled_from([0, 0, 1, 2]), min_size=n, max_size=n)
